@@ -247,7 +247,23 @@ def _check_custom_numbering(pym, case, dim, bad):
     if np.array_equal(perm, np.arange(2 ** dim)):
         perm = perm[::-1].copy()
     table = [list(dom.node_numbering[int(q)]) for q in perm]
-    dom.node_numbering = table
+    default_table = [list(t) for t in ref.node_numbering]
+    if case["renumber"] % 2:
+        dom.node_numbering[:] = table          # customised in place (entries of the existing list are replaced)
+    else:
+        dom.node_numbering = table
+    # the customisation belongs to this domain object only: domains built before and after keep the default order
+    later = pym.DomainDefinition(nx, ny, nz, unitx=ux, unity=uy, unitz=uz)
+    for name, other in (("an earlier", ref), ("a later", later)):
+        if [list(t) for t in other.node_numbering] != default_table:
+            bad("custom_numbering:leaks_to_other_domain", f"customising node_numbering of one domain changed the table of "
+                                                          f"{name} domain: {other.node_numbering}")
+            return
+        c0 = np.asarray(other.get_elemconnectivity(0, 0, 0)).ravel().tolist()
+        w0 = [int(ref.get_nodenumber(max(t[0], 0), max(t[1], 0), max(t[2], 0))) for t in default_table]
+        if c0 != w0 or np.asarray(other.conn)[int(other.get_elemnumber(0, 0, 0))].tolist() != w0:
+            bad("custom_numbering:leaks_to_other_domain", f"connectivity of {name} default domain is {c0}, expected {w0}")
+            return
     h = np.array([ux, uy, uz][:dim], dtype=float)
     nzz = max(nz, 1)
     elems = {(0, 0, 0), (nx - 1, ny - 1, nzz - 1), (int(rng.integers(0, nx)), int(rng.integers(0, ny)), int(rng.integers(0, nzz)))}
